@@ -442,6 +442,75 @@ def runL : Cells α × List α → List (LOp α) → M (Cells α × List α)
 
 
 
+/-! ### the comprehension loop -/
+
+section
+attribute [local simp] run emitCompBodyC runInstrs runInstr lookup step ret bind Except.bind pure
+  Except.pure throw throwThe MonadExceptOf.throw
+
+theorem run_bodyC (a : Cells α) (c : Int) (e : α) :
+    run id emitCompBodyC [vArr a, vInt c, vElem e] = match a[itousize c]? with
+      | none => .error .indexOob
+      | some none => .ok [vArr (a.set (itousize c) (some e)), vInt (wrap64 (c + 1))]
+      | some (some _) => .error .notBorrowed := by
+  rcases h : a[itousize c]? with _ | _ | w <;> simp [h]
+end
+
+theorem fill_get {β} (ys : List β) (j : Nat) (h : j < ys.length) :
+    ((ys.take j).map some ++ List.replicate (ys.length - j) (none : Option β))[j]? = some none := by
+  have hl : ((ys.take j).map some).length = j := by simp; omega
+  have hrep : ys.length - j = (ys.length - (j + 1)) + 1 := by omega
+  rw [List.getElem?_append_right (by rw [hl]; exact Nat.le_refl j), hl, Nat.sub_self, hrep, List.replicate_succ]
+  rfl
+
+theorem fill_set {β} (ys : List β) (j : Nat) (h : j < ys.length) :
+    ((ys.take j).map some ++ List.replicate (ys.length - j) (none : Option β)).set j (some ys[j])
+      = (ys.take (j + 1)).map some ++ List.replicate (ys.length - (j + 1)) none := by
+  have hl : ((ys.take j).map some).length = j := by simp; omega
+  have hrep : ys.length - j = (ys.length - (j + 1)) + 1 := by omega
+  have e1 : ys.take (j + 1) = ys.take j ++ [ys[j]] := by rw [List.take_add_one]; simp [h]
+  rw [List.set_append_right _ _ (by rw [hl]; exact Nat.le_refl j), hl, Nat.sub_self, hrep, List.replicate_succ,
+    List.set_cons_zero, e1, List.map_append, List.append_assoc]
+  rfl
+
+theorem runLoop_from (g : α → α) (xs : List α) (hn : xs.length < 2 ^ 63) :
+    ∀ (d j extra : Nat), j + d = xs.length →
+      runLoop (emitCompLoop xs.length) g (d + 1 + extra) ⟨iterCells true xs j, (j : Int)⟩
+        [vArr (ofList ((xs.take j).map g) ++ List.replicate (xs.length - j) none), vInt (j : Int)]
+      = .ok (some [vArr (ofList (xs.map g)), vInt (xs.length : Int)]) := by
+  intro d
+  induction d with
+  | zero =>
+    intro j extra hj
+    have : j = xs.length := by omega
+    subst this
+    have hfuel : 0 + 1 + extra = extra + 1 := by omega
+    rw [hfuel]
+    simp [runLoop, next_end, emitCompLoop, lookup, bind, Except.bind, pure, Except.pure]
+  | succ d ih =>
+    intro j extra hj
+    have hlt : j < xs.length := by omega
+    have hfuel : d + 1 + 1 + extra = (d + 1 + extra) + 1 := by omega
+    have hi : itousize (j : Int) = j := by
+      rw [itousize_of_nonneg (by omega) (by omega)]; simp
+    have hw : wrap64 ((j : Int) + 1) = ((j + 1 : Nat) : Int) := by
+      rw [wrap64_succ (by omega) (by omega)]; simp
+    have hjm : j < (xs.map g).length := by simpa using hlt
+    have hget : (ofList ((xs.take j).map g) ++ List.replicate (xs.length - j) (none : Option α))[j]?
+        = some none := by
+      have := fill_get (xs.map g) j hjm
+      simpa [ofList, List.map_take] using this
+    have hset : (ofList ((xs.take j).map g) ++ List.replicate (xs.length - j) (none : Option α)).set j
+        (some (g xs[j])) = ofList ((xs.take (j + 1)).map g) ++ List.replicate (xs.length - (j + 1)) none := by
+      have := fill_set (xs.map g) j hjm
+      simpa [ofList, List.map_take] using this
+    rw [hfuel]
+    simp only [runLoop, next_at true xs j hlt hn, emitCompLoop, bind, Except.bind, ne_eq,
+      not_true_eq_false, ↓reduceIte, List.cons_append, List.nil_append, run_bodyC, hi, hget, hset, hw]
+    have := ih (j + 1) extra (by omega)
+    simpa [emitCompLoop] using this
+
+
 /-! unfolding lemmas are generated here (not in `Props/`) -/
 theorem runOps_nil (st : Cells α × List α) : runOps st [] = pure st := by simp [runOps]
 theorem runL_nil (st : Cells α × List α) : runL st [] = pure st := by simp [runL]
